@@ -8,6 +8,8 @@ response, websocket, TCP, UDP, DNS).  Oracles:
   verdict         -- bool(filter(flow)) == vf.ref.c42_filter.ev(ast, facts) (own three-valued evaluator of the documented
                      semantics; undocumented corners evaluate to None and are skipped, counted as `verdict_undetermined`);
   total           -- evaluating the filter on a flow must not raise.
+  history         -- after each expression the same tree is parsed again (same process) with regex arguments that are case
+                     variants of the ones just parsed and checked against the reference evaluated on the variant's own text.
 """
 import re
 
@@ -20,14 +22,16 @@ PROPERTY = "C42"
 LEVEL = "exploration"
 BUDGET = {"quick": (1500, 12), "thorough": (40_000, 200)}
 WORKERS = {"quick": 4, "thorough": 16}
-REQUIRED = ["accepted", "verdict"]
+REQUIRED = ["accepted", "verdict", "variant_accepted", "variant_changes_verdict"]
 ENGINE = "direct"
 TECHNIQUE = "differential against an independent three-valued reference evaluator of the documented grammar"
 RULE = (
     "case = one random filter AST (depth<=5, all 32 documented operators, !, &, |, juxtaposition) rendered once with random "
     "spacing/parentheses/quoting and evaluated on a fresh pool of 12 flows (http, http+response, websocket, tcp, udp, dns) whose "
     "facts the generator fixed; regex arguments are derived from substrings of what the operator looks at (with case flips, "
-    "wildcards, anchors, alternation) so leaves are true on some flows; distinct = (connective kinds, depth, leaf kinds, quoting "
+    "wildcards, anchors, alternation) so leaves are true on some flows; in the same process the tree is then parsed again up to twice with "
+    "regex arguments that differ only in letter case (\\d/\\D \\w/\\W \\s/\\S \\b/\\B swapped, literal letters re-cased) and sibling operators, and "
+    "evaluated on the same flows (a verdict must not depend on what was parsed before); distinct = (connective kinds, depth, leaf kinds, quoting "
     "styles, juxtaposition, redundant parentheses, tight spacing) signature; non-trivial = depth>=2 and the reference verdict is "
     "true on some flow and false on another"
 )
@@ -129,6 +133,29 @@ def sample_of(text, ast, pool, verdicts):
     return {"filter": text, "ast": ast, "verdicts": "".join("?" if v is None else "TF"[not v] for v in verdicts), "flow_types": [f["type"] for f in pool]}
 
 
+def evaluate(ctx, text, ast, flt, pool, flows, parsed_before=None):
+    """Compare the parsed filter with the reference on every flow of the pool; -> reference verdicts."""
+    verdicts = []
+    for facts, fl in zip(pool, flows):
+        exp = ref.ev(ast, facts)
+        verdicts.append(exp)
+        ctx.count("total")
+        extra = {"parsed_before": parsed_before} if parsed_before else {}
+        try:
+            real = bool(flt(fl))
+        except Exception as e:  # noqa
+            ctx.violation("filter-raises", {"filter": text, "ast": ast, "facts": facts, "exc": repr(e), **extra})
+            continue
+        if exp is None:
+            ctx.count("verdict_undetermined")
+            continue
+        ctx.count("verdict")
+        if real != exp:
+            for m in classify_verdict(ast, facts, real):
+                ctx.violation("verdict-differs", {"filter": text, "ast": ast, "facts": facts, "real": real, "expected": exp, **extra}, m)
+    return verdicts
+
+
 def run_case(ctx):
     r = ctx.rng
     pool = [gen.gen_facts(r, t) for t in ("http", "http", "tcp", "udp", "dns")] + [gen.gen_facts(r) for _ in range(7)]
@@ -149,26 +176,40 @@ def run_case(ctx):
         ctx.count("accepted_respelled")
         text = alt
 
-    verdicts = []
-    for facts, fl in zip(pool, flows):
-        exp = ref.ev(ast, facts)
-        verdicts.append(exp)
-        ctx.count("total")
-        try:
-            real = bool(flt(fl))
-        except Exception as e:  # noqa
-            ctx.violation("filter-raises", {"filter": text, "ast": ast, "facts": facts, "exc": repr(e)})
-            continue
-        if exp is None:
-            ctx.count("verdict_undetermined")
-            continue
-        ctx.count("verdict")
-        if real != exp:
-            for m in classify_verdict(ast, facts, real):
-                ctx.violation("verdict-differs", {"filter": text, "ast": ast, "facts": facts, "real": real, "expected": exp}, m)
+    verdicts = evaluate(ctx, text, ast, flt, pool, flows)
+
+    # ---- history in one process: the same tree again with regex arguments that differ only in letter case (\\d/\\D,
+    # \\w/\\W, \\s/\\S, \\b/\\B are different regexes even under IGNORECASE) and sibling operators; the verdict of a
+    # filter must not depend on which filters were parsed before it
+    n_variants = 0
+    prev = ast
+    for _ in range(2 if gen.nesting(toks) <= 1 else 1):  # parentheses make the real parser slow: one variant is enough there
+        ast2, changed = gen.variant_ast(r, prev)
+        if not changed:
+            break
+        out = gen.render(r, ast2, max(max_nesting, gen.nesting(toks)))
+        if out is None:
+            break
+        text2, st2, toks2 = out
+        ctx.count("accepted")
+        ctx.count("variant_accepted")
+        flt2, err2 = parse(text2)
+        if flt2 is None:
+            mechs, alt, flt2 = explain_reject(text2, toks2, st2["gaps"])
+            for m in mechs:
+                ctx.violation("rejected", {"filter": text2, "ast": ast2, "parsed_before": text, "error": repr(err2.__cause__ or err2), "accepted_when_respelled": alt}, m)
+            if flt2 is None:
+                break
+            text2 = alt
+        v2 = evaluate(ctx, text2, ast2, flt2, pool, flows, parsed_before=text)
+        n_variants += 1
+        if any(a is not None and b is not None and a != b for a, b in zip(verdicts, v2)):
+            ctx.count("variant_changes_verdict")
+        prev = ast2
     kinds = tuple(sorted(ref.kinds(ast)))
     depth = ref.depth(ast)
-    sig = (kinds, depth, gen.nesting(toks), tuple(sorted(st["leafkinds"])), tuple(sorted(st["quoting"])), st["jux"], min(st["redundant"], 2), st["tight_unary"], st["tight_jux"])
+    sig = (kinds, depth, gen.nesting(toks), tuple(sorted(st["leafkinds"])), tuple(sorted(st["quoting"])), st["jux"], min(st["redundant"], 2), st["tight_unary"], st["tight_jux"],
+           n_variants)
     nontrivial = depth >= 2 and True in verdicts and False in verdicts
     ctx.seen("operators", ",".join(sorted({"~" + lf[1] if lf[1] else "naked" for lf in ref.leaves(ast)}))[:60])
     ctx.case(sig, nontrivial, sample_of(text, ast, pool, verdicts))
